@@ -21,6 +21,7 @@ package main
 import (
 	"encoding/json"
 	"fmt"
+	"os"
 	"sort"
 	"strings"
 	"time"
@@ -100,8 +101,8 @@ func cloneSeq(s []Op) []Op {
 // measure orders sequences: shorter, fewer Pair instances, fewer method routes, simpler kinds in
 // order of appearance, `new`s earlier, writes ordered by instance.
 func measure(s []Op) []int {
-	nPair, nMeth, nSub, nNest := 0, 0, 0, 0
-	var nRanks, wRanks, newPos, wInst []int
+	nPair, nMeth, nSub, nNest, nForm := 0, 0, 0, 0, 0 // nMeth: sum of the route ranks (prop 0, meth 1, … clos 7)
+	var nRanks, wRanks, newPos, wInst, agents []int
 	for i, o := range s {
 		if o.New {
 			if o.G == "Pair" {
@@ -129,8 +130,10 @@ func measure(s []Op) []int {
 			}
 			newPos = append(newPos, i)
 		} else {
-			if o.Route == "meth" {
-				nMeth++
+			nMeth += routeRank(o.Route)
+			nForm += formRank(o.Store)
+			if agentRoute(o.Route) {
+				agents = append(agents, o.Agent)
 			}
 			wRanks = append(wRanks, kindRank(o.Val))
 			wInst = append(wInst, o.Inst)
@@ -141,11 +144,12 @@ func measure(s []Op) []int {
 			}
 		}
 	}
-	m := []int{nNest, len(s), nPair, nMeth, nSub, len(nRanks)}
+	m := []int{nNest, len(s), visRank(visOf(s)), nPair, nMeth, nForm, nSub, len(nRanks)}
 	m = append(m, nRanks...) // type arguments in creation order
 	m = append(m, wRanks...) // written kinds in write order
 	m = append(m, newPos...)
 	m = append(m, wInst...)
+	m = append(m, agents...)
 	return m
 }
 
@@ -181,6 +185,15 @@ func dropOp(s []Op, i int) []Op {
 			}
 			if o.Inst >= idx+w {
 				o.Inst -= w
+			}
+			if agentRoute(o.Route) {
+				// a write performed by the dropped instance goes with it
+				if o.Agent >= idx && o.Agent < idx+w {
+					continue
+				}
+				if o.Agent >= idx+w {
+					o.Agent -= w
+				}
 			}
 		}
 		r = append(r, o)
@@ -317,11 +330,43 @@ func candidates(s []Op) [][]Op {
 			out = append(out, c)
 		}
 	}
-	for i, o := range s {
-		if !o.New && o.Route == "meth" {
+	// a less visible member -> a more visible one (the whole history uses one class variant)
+	if v := visRank(visOf(s)); v > 0 && v < len(visOrder) {
+		for _, simpler := range visOrder[:v] {
 			c := cloneSeq(s)
-			c[i].Route = "prop"
+			for i := range c {
+				if c[i].New {
+					c[i].Vis = simpler
+				}
+			}
 			out = append(out, c)
+		}
+	}
+	for i, o := range s {
+		if !o.New {
+			// a simpler route for the same store (an agent is kept only by another agent route) …
+			for _, r := range routeOrder[:min(routeRank(o.Route), len(routeOrder))] {
+				c := cloneSeq(s)
+				c[i].Route = r
+				if !agentRoute(r) {
+					c[i].Agent = 0
+				}
+				out = append(out, c)
+			}
+			// … a simpler store statement …
+			for _, f := range formOrder[:min(formRank(o.Store), len(formOrder))] {
+				c := cloneSeq(s)
+				c[i].Store = f
+				out = append(out, c)
+			}
+			// … or an earlier instance as the agent
+			if agentRoute(o.Route) {
+				for a := 0; a < o.Agent; a++ {
+					c := cloneSeq(s)
+					c[i].Agent = a
+					out = append(out, c)
+				}
+			}
 		}
 		if o.New && o.Raw == "sub" {
 			c := cloneSeq(s)
@@ -451,6 +496,8 @@ type shardArg struct {
 	MaxLen int   `json:"max"`
 	Alpha  alpha `json:"alpha"`
 	Seed   int64 `json:"seed"`
+	Slice  int   `json:"slice,omitempty"` // table shards: cases with index % Of == Slice
+	Of     int   `json:"of,omitempty"`
 }
 
 type rec struct {
@@ -570,6 +617,28 @@ func tableCases() [][]Op {
 			}
 		}
 	}
+	// every visibility variant × every route admissible for it, the instance being its own agent
+	for _, vis := range visOrder {
+		for _, r := range routeOrder {
+			for _, f := range formOrder {
+				if (r == "prop" || r == "meth") && vis == "" && f == "" || vis != "" && publicOnly(r) {
+					continue // public plain prop / meth: the rows above
+				}
+				for _, v := range allKinds {
+					for _, t := range types {
+						out = append(out, []Op{{New: true, G: "Box", Args: []string{t}, Vis: vis}, {Inst: 0, Member: "v", Route: r, Store: f, Val: v}})
+					}
+					for _, t1 := range types {
+						for _, t2 := range types {
+							for _, m := range []string{"k", "v"} {
+								out = append(out, []Op{{New: true, G: "Pair", Args: []string{t1, t2}, Vis: vis}, {Inst: 0, Member: m, Route: r, Store: f, Val: v}})
+							}
+						}
+					}
+				}
+			}
+		}
+	}
 	return out
 }
 
@@ -580,7 +649,10 @@ func tableWorker(w *pool.W, arg json.RawMessage) {
 	red := &reducer{memo: map[string]string{}}
 	var n int64
 	outcomes := map[string]int{}
-	for _, seq := range tableCases() {
+	for i, seq := range tableCases() {
+		if sh.Of > 1 && i%sh.Of != sh.Slice {
+			continue
+		}
 		if !w.Item("table:" + seqString(seq)) {
 			continue
 		}
@@ -628,8 +700,20 @@ func countSeqs(a alpha, maxLen int) map[int]int64 {
 	if a.Nested {
 		nbb, nbp, npp = 3*tb*tb, 2*2*tb*tp, 2*tp*tp // short form: Box in Box only
 	}
-	wb := int64(len(a.Routes) * len(a.Vals))
-	wp := 2 * wb
+	// writes on one target: simple routes once, agent routes once per admissible agent (every live instance,
+	// or — pour/clos into a non-public member — every live instance of the target's generic class)
+	var simple, agAll, agSame int64
+	for _, r := range a.routes() {
+		switch {
+		case !agentRoute(r):
+			simple++
+		case sameClassAgent(r, a.Vis):
+			agSame++
+		default:
+			agAll++
+		}
+	}
+	nv := int64(len(a.Vals) * len(a.stores()))
 	// state: (boxes, pairs) live
 	type st struct{ b, p int }
 	cur := map[st]int64{{0, 0}: 1}
@@ -651,7 +735,9 @@ func countSeqs(a alpha, maxLen int) map[int]int64 {
 			if npp > 0 {
 				nxt[st{s.b, s.p + 2}] += c * npp
 			}
-			if wr := int64(s.b)*wb + int64(s.p)*wp; wr > 0 {
+			b, p := int64(s.b), int64(s.p)
+			wr := b*nv*(simple+agAll*(b+p)+agSame*b) + p*2*nv*(simple+agAll*(b+p)+agSame*p)
+			if wr > 0 {
 				nxt[s] += c * wr
 			}
 		}
@@ -664,6 +750,8 @@ func countSeqs(a alpha, maxLen int) map[int]int64 {
 	}
 	return res
 }
+
+const tableShards = 32
 
 type plan struct {
 	name   string
@@ -687,35 +775,72 @@ func main() {
 	both := []string{"prop", "meth"}
 	three := []string{"int", "string", "U"}
 	two := []string{"int", "string"}
+	inClass := []string{"meth", "stat", "pour", "relay", "clos"} // routes whose code belongs to the generic class itself
 	full := alpha{Generics: []string{"Box", "Pair"}, Types: four, Vals: four, Routes: both}
 	// quick: the full alphabet to length 3, and length 4 on three sub-alphabets (each complete)
 	fullRaw := full
 	fullRaw.Raw = true
 	// quick: the full alphabet (incl. raw `new G()` and subclass `new AnyG()` objects) to length 3, and
 	// length 4 on four sub-alphabets (each complete)
+	bp := []string{"Box", "Pair"}
+	bx := []string{"Box"}
+	// Cheaper plans first: if the budget expires on a loaded machine, what is lost is the deepest part.
 	plans := []plan{
 		{"full+raw", fullRaw, 3},
-		{"box-4kinds+raw", alpha{Generics: []string{"Box"}, Types: four, Vals: four, Routes: both, Raw: true}, 4},
-		{"pair-3kinds", alpha{Generics: []string{"Pair"}, Types: three, Vals: three, Routes: both}, 4},
+		{"nested-box+pair-2kinds", alpha{Generics: bp, Types: two, Vals: two, Routes: both, Nested: true}, 2},
+		// who executes the store × visibility of the typed member (routeOrder / visOrder in model.go)
+		{"agents-full3-priv+raw", alpha{Generics: bp, Types: three, Vals: three, Routes: inClass, Raw: true, Vis: "priv"}, 3},
+		{"agents-full3-prot+raw", alpha{Generics: bp, Types: three, Vals: three, Routes: inClass, Raw: true, Vis: "prot"}, 3},
+		{"agents-full3-pub+raw", alpha{Generics: bp, Types: three, Vals: three, Routes: routeOrder, Raw: true}, 3},
+		// … × the syntax of the store statement (formOrder)
+		{"forms-box3-pub", alpha{Generics: bx, Types: three, Vals: three, Routes: routeOrder, Stores: formOrder}, 3},
+		{"forms-box3-prot", alpha{Generics: bx, Types: three, Vals: three, Routes: inClass, Stores: formOrder, Vis: "prot"}, 3},
+		{"forms-box3-priv", alpha{Generics: bx, Types: three, Vals: three, Routes: inClass, Stores: formOrder, Vis: "priv"}, 3},
+		{"box-4kinds+raw", alpha{Generics: bx, Types: four, Vals: four, Routes: both, Raw: true}, 4},
 		{"pair-2kinds+raw", alpha{Generics: []string{"Pair"}, Types: two, Vals: two, Routes: both, Raw: true}, 4},
-		{"box+pair-2kinds+raw", alpha{Generics: []string{"Box", "Pair"}, Types: two, Vals: two, Routes: both, Raw: true}, 4},
-		{"nested-box-3kinds", alpha{Generics: []string{"Box"}, Types: three, Vals: three, Routes: both, Nested: true}, 3},
-		{"nested-box+pair-2kinds", alpha{Generics: []string{"Box", "Pair"}, Types: two, Vals: two, Routes: both, Nested: true}, 2},
+		{"agents-box2-pub", alpha{Generics: bx, Types: two, Vals: two, Routes: routeOrder}, 4},
+		{"agents-box3-priv", alpha{Generics: bx, Types: three, Vals: three, Routes: inClass, Vis: "priv"}, 4},
+		{"nested-box-3kinds", alpha{Generics: bx, Types: three, Vals: three, Routes: both, Nested: true}, 3},
+		{"box+pair-2kinds+raw", alpha{Generics: bp, Types: two, Vals: two, Routes: both, Raw: true}, 4},
+		{"pair-3kinds", alpha{Generics: []string{"Pair"}, Types: three, Vals: three, Routes: both}, 4},
 	}
 	if !c.Quick() {
 		// thorough: the full alphabet to length 4; longer histories on sub-alphabets; the foreign class W as a value
 		plans = []plan{
-			{"full", full, 4},
 			{"full+raw", fullRaw, 3},
-			{"box-4kinds+raw", alpha{Generics: []string{"Box"}, Types: four, Vals: four, Routes: both, Raw: true}, 4},
+			{"box-4kinds+raw", alpha{Generics: bx, Types: four, Vals: four, Routes: both, Raw: true}, 4},
 			{"pair-3kinds+raw", alpha{Generics: []string{"Pair"}, Types: three, Vals: three, Routes: both, Raw: true}, 4},
-			{"box-4kinds+W", alpha{Generics: []string{"Box"}, Types: four, Vals: allKinds, Routes: both}, 5},
-			{"box-2kinds+raw", alpha{Generics: []string{"Box"}, Types: two, Vals: two, Routes: both, Raw: true}, 5},
+			{"nested-box-4kinds", alpha{Generics: bx, Types: four, Vals: four, Routes: both, Nested: true}, 3},
+			{"nested-box+pair-2kinds", alpha{Generics: bp, Types: two, Vals: two, Routes: both, Nested: true}, 3},
+			{"agents-full-priv+raw", alpha{Generics: bp, Types: four, Vals: four, Routes: inClass, Raw: true, Vis: "priv"}, 3},
+			{"agents-full-prot+raw", alpha{Generics: bp, Types: four, Vals: four, Routes: inClass, Raw: true, Vis: "prot"}, 3},
+			{"agents-full-pub+raw", alpha{Generics: bp, Types: four, Vals: four, Routes: routeOrder, Raw: true}, 3},
+			{"agents-box4-priv+raw", alpha{Generics: bx, Types: four, Vals: four, Routes: inClass, Raw: true, Vis: "priv"}, 4},
+			{"agents-box3-prot+raw", alpha{Generics: bx, Types: three, Vals: three, Routes: inClass, Raw: true, Vis: "prot"}, 4},
+			{"agents-box3-pub", alpha{Generics: bx, Types: three, Vals: three, Routes: routeOrder}, 4},
+			{"agents-pair2-priv", alpha{Generics: []string{"Pair"}, Types: two, Vals: two, Routes: inClass, Vis: "priv"}, 4},
+			{"agents-box3-priv-pour", alpha{Generics: bx, Types: three, Vals: three, Routes: []string{"meth", "pour"}, Vis: "priv"}, 5},
+			{"forms-full3-priv+raw", alpha{Generics: bp, Types: three, Vals: three, Routes: inClass, Stores: formOrder, Raw: true, Vis: "priv"}, 3},
+			{"forms-full2-prot", alpha{Generics: bp, Types: two, Vals: two, Routes: inClass, Stores: formOrder, Vis: "prot"}, 3},
+			{"forms-full3-pub+raw", alpha{Generics: bp, Types: three, Vals: three, Routes: routeOrder, Stores: formOrder, Raw: true}, 3},
+			{"forms-box2-pub", alpha{Generics: bx, Types: two, Vals: two, Routes: []string{"prop", "meth", "pour"}, Stores: formOrder}, 4},
+			{"box-4kinds+W", alpha{Generics: bx, Types: four, Vals: allKinds, Routes: both}, 5},
+			{"box-2kinds+raw", alpha{Generics: bx, Types: two, Vals: two, Routes: both, Raw: true}, 5},
 			{"pair-2kinds", alpha{Generics: []string{"Pair"}, Types: []string{"int", "U"}, Vals: []string{"int", "U"}, Routes: both}, 5},
-			{"box-prop-3kinds", alpha{Generics: []string{"Box"}, Types: three, Vals: three, Routes: []string{"prop"}}, 6},
-			{"nested-box-4kinds", alpha{Generics: []string{"Box"}, Types: four, Vals: four, Routes: both, Nested: true}, 3},
-			{"nested-box+pair-2kinds", alpha{Generics: []string{"Box", "Pair"}, Types: two, Vals: two, Routes: both, Nested: true}, 3},
+			{"box-prop-3kinds", alpha{Generics: bx, Types: three, Vals: three, Routes: []string{"prop"}}, 6},
+			{"full", full, 4},
 		}
+	}
+	// development aid: C19_PLANS=<substring> runs only the plans whose name contains it (reported as not exhaustive)
+	if f := os.Getenv("C19_PLANS"); f != "" {
+		var sel []plan
+		for _, p := range plans {
+			if strings.Contains(p.name, f) {
+				sel = append(sel, p)
+			}
+		}
+		plans = sel
+		c.NotExhaustive("C19_PLANS=" + f + ": only the matching plans were run")
 	}
 	expected := map[string]map[int]int64{}
 	const plen = 2
@@ -764,7 +889,14 @@ func main() {
 			c.Fail("worker-death:"+runner.FatalFrame(d.Stderr), "crash", 0, map[string]any{"item": d.Item, "reason": d.Reason}, d.Stderr)
 		})
 	}
-	run([]pool.Shard{{Kind: "table", Arg: shardArg{Seed: c.Seed}}}, "")
+	var tshards []pool.Shard
+	for i := 0; i < tableShards; i++ {
+		tshards = append(tshards, pool.Shard{Kind: "table", Arg: shardArg{Seed: c.Seed, Slice: i, Of: tableShards}})
+	}
+	run(tshards, "")
+	if n := int64(len(tableCases())); tableN != n {
+		c.HarnessError("table: ran %d cases, the table has %d", tableN, n)
+	}
 	// concurrent clause: coroutines instantiating Box<T> with different arguments under the scheduler
 	var cshards []pool.Shard
 	for _, sc := range concScenarios(c.Quick()) {
